@@ -39,6 +39,9 @@ def run(ctx):
     django_h.setup()
     n = SC.generic_layer(ctx, BK, "full", 0) + SC.generic_layer(ctx, BK, "full", 1) + SC.generic_layer(ctx, BK, "full", 2)
     ctx.layer("full-alphabet", k_max=2, filters=n, exhaustive=True)
+    nrf = SC.refusable_layer(ctx, BK)
+    ctx.layer("logic-as-comparison-operand", filters=nrf, exhaustive=True,
+              note="and/or/not as an operand of eq / ne / a null test: refused with a library exception, or answered with the right rows")
     nb = SC.boolean_operand_layer(ctx, BK)
     ctx.layer("boolean-operands", filters=nb, exhaustive=True,
               note="eq/ne between every ordered pair of boolean-valued lookups (comparisons, boolean functions, null tests, in-tests, the boolean field, literals), alone, negated and beside another clause; the bare boolean field as a predicate")
